@@ -12,7 +12,15 @@ use std::process::{Command, Stdio};
 use std::sync::{Arc, Mutex};
 use std::time::{Duration, Instant, SystemTime, UNIX_EPOCH};
 
-const VERIF_DIR: &str = "/verif";
+/// where evidence/, replays/ and known_findings.jsonl live (override for scratch runs against
+/// modified copies of the repository: HX_OUT_DIR), and where the two profile binaries are
+/// (HX_BIN_DIR)
+fn verif_dir() -> String {
+    std::env::var("HX_OUT_DIR").unwrap_or_else(|_| "/verif".to_string())
+}
+fn bin_dir() -> String {
+    std::env::var("HX_BIN_DIR").unwrap_or_else(|_| "/verif/hx/target".to_string())
+}
 
 fn now_ms() -> u64 {
     SystemTime::now().duration_since(UNIX_EPOCH).unwrap().as_millis() as u64
@@ -137,7 +145,7 @@ struct Merged {
 }
 
 fn binary_for(profile: &str) -> String {
-    format!("{VERIF_DIR}/hx/target/{}/hx", if profile == "dbg" { "dbg" } else { "release" })
+    format!("{}/{}/hx", bin_dir(), if profile == "dbg" { "dbg" } else { "release" })
 }
 
 struct Unit {
@@ -383,7 +391,7 @@ pub struct Known {
 impl Known {
     pub fn load() -> Known {
         let mut entries = vec![];
-        if let Ok(s) = std::fs::read_to_string(format!("{VERIF_DIR}/known_findings.jsonl")) {
+        if let Ok(s) = std::fs::read_to_string(format!("{}/known_findings.jsonl", "/verif")) {
             for l in s.lines() {
                 let l = l.trim();
                 if l.is_empty() || l.starts_with('#') {
@@ -409,8 +417,8 @@ impl Known {
 fn finish(plan: &Plan, tier: Tier, seed: i64, mut m: Merged, t0: Instant) -> i32 {
     let known = Known::load();
     let property = plan.property;
-    let _ = std::fs::create_dir_all(format!("{VERIF_DIR}/evidence"));
-    let _ = std::fs::create_dir_all(format!("{VERIF_DIR}/replays"));
+    let _ = std::fs::create_dir_all(format!("{}/evidence", verif_dir()));
+    let _ = std::fs::create_dir_all(format!("{}/replays", verif_dir()));
     // aborts / hangs
     let abort_counts = matches!(property, "C04" | "C12" | "C13" | "C19") || plan.jobs.iter().any(|j| j.armed.contains(&"C04"));
     let mut abort_diag = vec![];
@@ -454,7 +462,7 @@ fn finish(plan: &Plan, tier: Tier, seed: i64, mut m: Merged, t0: Instant) -> i32
     for (i, f) in violations.iter().enumerate() {
         let sig = f["viol"]["sig"].as_str().unwrap_or("");
         let safe: String = sig.chars().map(|c| if c.is_ascii_alphanumeric() || c == '.' || c == '-' { c } else { '_' }).take(60).collect();
-        let path = format!("{VERIF_DIR}/replays/{property}-{}-{i}-{safe}.json", tier.name());
+        let path = format!("{}/replays/{property}-{}-{i}-{safe}.json", verif_dir(), tier.name());
         let r = json!({
             "property": property, "world": f["world"], "family": f["family"], "profile": f["profile"], "handler_order": f["handler_order"],
             "armed": f["armed"], "program": f["prog"], "history": f["history"], "rule": f["viol"]["rule"], "sig": sig,
@@ -464,7 +472,10 @@ fn finish(plan: &Plan, tier: Tier, seed: i64, mut m: Merged, t0: Instant) -> i32
         replay_paths.push(path);
     }
     let exhaustive = m.caps.is_empty() && m.units_done == m.units_total;
-    let distinct = m.states;
+    let distinct = match plan.distinct_counter {
+        Some(c) => m.counters.get(c).copied().unwrap_or(0),
+        None => m.states,
+    };
     let mut samples = m.samples.clone();
     if samples.is_empty() {
         samples.push(json!({"note": "no history sample returned by workers"}));
@@ -508,7 +519,7 @@ fn finish(plan: &Plan, tier: Tier, seed: i64, mut m: Merged, t0: Instant) -> i32
             "seed_note": "exploration is exhaustive within bounds and deterministic; the seed selects nothing",
         }
     });
-    let _ = std::fs::write(format!("{VERIF_DIR}/evidence/{property}.json"), serde_json::to_string_pretty(&ev).unwrap());
+    let _ = std::fs::write(format!("{}/evidence/{property}.json", verif_dir()), serde_json::to_string_pretty(&ev).unwrap());
     for l in known_lines.iter() {
         println!("{l}");
     }
